@@ -78,6 +78,28 @@ def cas_update_rule(rep, rid, s, obj: str, prog) -> None:
     checks = [n for n in ast.walk(fn) if isinstance(n, ast.If) and var and norm(n.test) in (f"{var}.rowcount == 0", f"{var}.rowcount < 1", f"not {var}.rowcount") and n.lineno > s.line]
     ok = bool(checks)
     detail = "rowcount == 0 check missing"
+    if not ok and var is None:
+        # RETURNING idiom (Postgres sibling): zero rows <=> the fetch after the statement yields nothing
+        fetched = [n for n in ast.walk(fn) if isinstance(n, ast.Assign) and isinstance(n.targets[0], ast.Name) and isinstance(n.value, ast.Call) and norm(n.value.func).endswith(".fetchone") and n.lineno > s.line]
+        if fetched and "RETURNING" in s.text.upper():
+            rv = fetched[0].targets[0].id
+            falsy = None
+            for i_ in ast.walk(fn):
+                if isinstance(i_, ast.If) and i_.lineno > fetched[0].lineno:
+                    t_, neg = i_.test, False
+                    while isinstance(t_, ast.UnaryOp) and isinstance(t_.op, ast.Not):
+                        t_, neg = t_.operand, not neg
+                    if norm(t_) in (rv, f"{rv} is not None"):
+                        falsy = i_.body if neg else i_.orelse
+                    elif norm(t_) == f"{rv} is None":
+                        falsy = i_.orelse if neg else i_.body
+                    if falsy is not None:
+                        checks = [i_]
+                        break
+            ok = falsy is not None and _raises_all_paths(falsy, "ConcurrencyError")
+            detail = "no returned row -> raise ConcurrencyError on every path" if ok else "the no-row branch of the RETURNING fetch does not raise ConcurrencyError on every path"
+            rep.check(ok, rid, f"{name} conflict check", detail, s.file, checks[0].lineno if checks else s.line, disc=f"{name}:check")
+            return
     if ok:
         c = checks[0]
         if obj == "stage":
@@ -88,6 +110,9 @@ def cas_update_rule(rep, rid, s, obj: str, prog) -> None:
             if early:
                 ok = False
                 detail = "in-memory version bumped before the conflict check"
+            elif ok and not any(isinstance(b.op, ast.Add) and isinstance(b.value, ast.Constant) and b.value.value == 1 for b in bumps):
+                ok = False
+                detail = f"the in-memory token is not advanced (`{obj}.version += 1`) after the successful CAS: the object's next save fails the version check, or - if the token is re-read separately - can adopt another writer's version"
         else:
             # task: zero rows -> INSERT fallback; IntegrityError -> ConcurrencyError
             tries = [t for t in ast.walk(c) if isinstance(t, ast.Try)]
@@ -205,6 +230,27 @@ def token_integrity_rule(ctx, rep, rid: str) -> None:
                     rep.check(ok, rid, f"version token written in {f.module.name}:{f.qualname}", "only the persistence layer advances / restores the token" if ok else
                               "a handler overwrites the optimistic-lock token of an in-memory stage: the next store passes the version check without the writer having seen the concurrent change (a laundered conflict)",
                               f.file, a.lineno, disc=f"{f.module.name}:{f.qualname}")
+                    if ok and isinstance(a, ast.Assign) and f.qualname.split(".")[-1] != "rollback_versions":
+                        # inside the persistence layer the token advances by `+= 1` right after the CAS, or comes out of the very
+                        # UPDATE (RETURNING). A value obtained by a SEPARATE read can already be another writer's version.
+                        src_ok = False
+                        why = f"`{norm(a)}`"
+                        names = {x.id for x in ast.walk(a.value) if isinstance(x, ast.Name)}
+                        stm = [s_ for s_ in sqlshape.statements(prog) if s_.func is f or s_.func.qualname == f.qualname and s_.func.module is f.module]
+                        for d_ in ast.walk(f.node):
+                            if isinstance(d_, ast.Assign) and isinstance(d_.targets[0], ast.Name) and d_.targets[0].id in names and d_.lineno <= a.lineno:
+                                # the fetch behind this local: which statement produced it?
+                                before = [s_ for s_ in stm if s_.line <= (d_.end_lineno or d_.lineno)]
+                                if before:
+                                    last = max(before, key=lambda s_: s_.line)
+                                    if last.kind in ("UPDATE", "INSERT") and "RETURNING" in last.text.upper():
+                                        src_ok = True
+                                    why = f"`{norm(a)}` takes the value of a {last.kind} at line {last.line}"
+                        if isinstance(a.value, ast.Attribute) or (isinstance(a.value, ast.Name) and not names - {"new_version"} and src_ok):
+                            pass
+                        rep.check(src_ok, rid, f"{f.qualname}: the token is advanced by the CAS itself", "version comes from the RETURNING clause of the write itself" if src_ok else
+                                  why + ": the in-memory token is set from a separate read after the write - if another writer commits in between, this object is stamped with that writer's version without having its data, and its next save silently overwrites it",
+                                  f.file, a.lineno, disc=f"token-source:{f.qualname}")
     rep.floor("writes of a .version token", n, 4)
     rs = prog.func("stabilize.persistence.sqlite.store.stage_ops", "SqliteStageOpsMixin.retrieve_stage")
     sel = [s_ for s_ in sqlshape.statements(prog) if s_.func.qualname == "SqliteStageOpsMixin.retrieve_stage" and s_.kind == "SELECT"]
